@@ -295,8 +295,13 @@ def C02(tier, seed):
         reps = _generate(pid, wd, "MCLogSpec.tla", "MCLogSpec_C02gen.cfg" if quick else "MCLogSpec_C02gent.cfg", st,
                          timeout=3000)
         builds = [r["steps"][0] for r in reps if r["steps"] and r["steps"][0]["op"] == "Build"]
-        C.log(f"[{pid}] TLC enumerated {len(builds)} specifications")
+        n_enum = len(builds)
         rng = random.Random(seed)
+        cap = 6000 if quick else 60000
+        if n_enum > cap:
+            # too many for one run: seeded sample, the rest is reached with other seeds
+            builds = [builds[i] for i in sorted(rng.sample(range(n_enum), cap))]
+        C.log(f"[{pid}] TLC enumerated {n_enum} specifications, {len(builds)} of them replayed")
         perm = list(range(len(builds)))
         rng.shuffle(perm)
         scens = []
@@ -412,7 +417,7 @@ def C05(tier, seed):
         reps = C.drop_prefixes(reps)
         nall = len(reps)
         rng = random.Random(seed)
-        limit = 6000 if quick else 150000
+        limit = 6000 if quick else 40000
         if nall > limit:
             rng.shuffle(reps)
             reps = reps[:limit]
